@@ -118,8 +118,8 @@ def program(shape, err, resume, placement, second):
 def sub_program(err):
     """error inside a SUB / FUNCTION: only handler entry and ERR are promised"""
     ename, expr, code, repair, fixed = err
-    src = '\n'.join(['ON ERROR GOTO h'] + ['DIM SHARED z%, m%, i%, n%', 'DIM SHARED a%(3)'] +
-                    ['z% = 0', 'm% = 32767', 'i% = 9', 'n% = -1'] +
+    src = '\n'.join(['ON ERROR GOTO h'] + ['DIM SHARED z%, m%, i%, n%, zf!, nf!', 'DIM SHARED a%(3)'] +
+                    ['z% = 0', 'm% = 32767', 'i% = 9', 'n% = -1', 'zf! = 0', 'nf! = -1'] +
                     ['PRINT "before"', 'p', 'PRINT "unreached"', 'END', 'h:', 'PRINT "H"; ERR', 'END',
                      'SUB p', f'x% = {expr}', 'END SUB'])
     return src, ['before\r\n', f'H{pnum(code)}\r\n'], [2, None]
